@@ -221,7 +221,9 @@ class AttackGraph():
             serialized_attack_steps[ag_node.full_name] =\
                 ag_node.to_dict()
         for attacker in self.attackers:
-            serialized_attackers[attacker.name] = attacker.to_dict()
+            # Attackers are keyed by id since several attackers can share a
+            # name. The key itself is not used when loading.
+            serialized_attackers[attacker.id] = attacker.to_dict()
         return {
             'attack_steps': serialized_attack_steps,
             'attackers': serialized_attackers,
